@@ -233,4 +233,39 @@ theorem sorted_ext {a b : MemDB} (ha : Sorted a) (hb : Sorted b) (h : ∀ k, a.g
         rw [get_none_of_lt ha.2 (fun e he => kcmp_lt_trans hlt (ha.1 e he)),
             get_none_of_lt hb.2 (fun e he => kcmp_lt_trans hlt (hb.1 e he))]
 
+theorem step_sorted {m : MemDB} (h : Sorted m) (o : Op) : Sorted (m.step o) := by
+  cases o with
+  | put k v => exact put_sorted h k v
+  | del k => exact put_sorted h k []
+  | reset => simp [MemDB.step, Sorted]
+
+theorem foldl_step_sorted (ops : List Op) {m : MemDB} (h : Sorted m) : Sorted (ops.foldl MemDB.step m) := by
+  induction ops generalizing m with
+  | nil => exact h
+  | cons o r ih => exact ih (step_sorted h o)
+
+theorem run_sorted (ops : List Op) : Sorted (run ops) :=
+  foldl_step_sorted ops (by simp [Sorted])
+
+theorem get_step {m : MemDB} (h : Sorted m) (o : Op) (q : Key) :
+    (m.step o).get q = finalFrom (m.get q) [o] q := by
+  cases o with
+  | put k v => simp [MemDB.step, finalFrom, get_put h]
+  | del k => simp [MemDB.step, MemDB.del, finalFrom, get_put h]
+  | reset => simp [MemDB.step, finalFrom, MemDB.get]
+
+theorem finalFrom_cons (i : Option Val) (o : Op) (r : List Op) (q : Key) :
+    finalFrom i (o :: r) q = finalFrom (finalFrom i [o] q) r q := by
+  simp [finalFrom]
+
+theorem get_foldl_step (ops : List Op) {m : MemDB} (h : Sorted m) (q : Key) :
+    (ops.foldl MemDB.step m).get q = finalFrom (m.get q) ops q := by
+  induction ops generalizing m with
+  | nil => rfl
+  | cons o r ih =>
+    rw [List.foldl_cons, ih (step_sorted h o), get_step h, ← finalFrom_cons]
+
+theorem get_run (ops : List Op) (q : Key) : (run ops).get q = finalOf ops q :=
+  get_foldl_step ops (by simp [Sorted]) q
+
 end OntVerif.Proofs.KV
